@@ -1,9 +1,17 @@
 package gateway
 
 import (
+	"bytes"
+	"context"
+	"errors"
+	"net/http"
+	"net/url"
 	"strings"
 
 	"github.com/ipfs/boxo/internal/verifrt"
+	"github.com/ipfs/boxo/path"
+	cid "github.com/ipfs/go-cid"
+	"github.com/libp2p/go-libp2p/core/peer"
 )
 
 // zzwValidDNSName: labels are non-empty and neither start nor end with a hyphen (RFC 1123 host names).
@@ -97,5 +105,356 @@ func HarnessC32LabelLimit() {
 	} else {
 		verifrt.Assert("C32.inline-error-returns-no-label", label == "")
 	}
+	verifrt.Reach("end")
+}
+
+// ---------------------------------------------------------------------------------------------------
+// Path request -> subdomain redirect -> subdomain request -> content path (NewHostnameHandler, both hops).
+// ---------------------------------------------------------------------------------------------------
+
+// zzwBackend answers DNSLink lookups from a fixed set of names; nothing else is used by the hostname handler.
+type zzwBackend struct {
+	IPFSBackend
+	names map[string]bool
+}
+
+func (b *zzwBackend) GetDNSLinkRecord(ctx context.Context, name string) (path.Path, error) {
+	if b.names[name] {
+		return nil, nil
+	}
+	return nil, errors.New("no DNSLink record")
+}
+
+// zzwWebError stands in for gateway.webError (content negotiation, logging): only the status matters.
+func zzwWebError(w http.ResponseWriter, r *http.Request, c *Config, err error, defaultCode int) {
+	w.WriteHeader(defaultCode)
+}
+
+type zzwRW struct {
+	h    http.Header
+	code int
+}
+
+func (w *zzwRW) Header() http.Header { return w.h }
+func (w *zzwRW) WriteHeader(c int) {
+	if w.code == 0 {
+		w.code = c
+	}
+}
+func (w *zzwRW) Write(p []byte) (int, error) {
+	if w.code == 0 {
+		w.code = 200
+	}
+	return len(p), nil
+}
+
+// zzwNext records what the wrapped handler is given.
+type zzwNext struct {
+	calls    int
+	path     string
+	rawQuery string
+	subdomGw string
+	dnslink  string
+}
+
+func (n *zzwNext) ServeHTTP(w http.ResponseWriter, r *http.Request) {
+	n.calls++
+	n.path = r.URL.Path
+	n.rawQuery = r.URL.RawQuery
+	n.subdomGw, _ = r.Context().Value(SubdomainHostnameKey).(string)
+	n.dnslink, _ = r.Context().Value(DNSLinkHostnameKey).(string)
+	w.WriteHeader(200)
+}
+
+const (
+	zzwKindCID     = iota // /ipfs/<cid>: identity = codec + multihash
+	zzwKindPeer           // /ipns/<peer id or key cid>: identity = peer ID
+	zzwKindDNSLink        // /ipns/<fqdn> with a DNSLink record: identity = the FQDN
+	zzwKindTooLong        // a CID that has no 63-byte label: must be refused, never redirected
+)
+
+type zzwSample struct {
+	kind int
+	ns   string
+	id   string
+	fqdn string // DNSLink: the name the id stands for
+}
+
+var zzwPool = []zzwSample{
+	{zzwKindCID, "ipfs", "QmbCMUZw6JFeZ7Wp9jkzbye3Fzp2GGcPgC3nmeUjfVF87n", ""},                                                                     // CIDv0
+	{zzwKindCID, "ipfs", "bafybeif7a7gdklt6hodwdrmwmxnhksctcuav6lfxlcyfz4khzl3qfmvcgu", ""},                                                        // CIDv1 base32 dag-pb
+	{zzwKindCID, "ipfs", "bafkqaglimvwgy3zakrsxg5cun5jxkyten5wwc2lokvjeycq", ""},                                                                   // CIDv1 raw, identity multihash
+	{zzwKindCID, "ipfs", "zdj7WiHbqzzwmjFRppjtUicUMUbtD1Typ2XYWTKSSsQUvp2Hi", ""},                                                                  // CIDv1 base58btc
+	{zzwKindPeer, "ipns", "QmY3hE8xgFCjGcz6PHgnvJz5HZi1BaKRfPkn1ghZUcYMjD", ""},                                                                    // RSA peer ID, base58 multihash
+	{zzwKindPeer, "ipns", "12D3KooWFB51PRY9BxcXSH6khFXw1BZeszeLDy7C8GciskqCTZn5", ""},                                                              // ed25519 peer ID (identity multihash)
+	{zzwKindPeer, "ipns", "bafybeickencdqw37dpz3ha36ewrh4undfjt2do52chtcky4rxkj447qhdm", ""},                                                       // key as CIDv1 with dag-pb codec
+	{zzwKindPeer, "ipns", "bafzaajaiaejca4syrpdu6gdx4wsdnokxkprgzxf4wrstuc34gxw5k5jrag2so5gk", ""},                                                 // ed25519 key, CIDv1 libp2p-key base32 (65 bytes)
+	{zzwKindPeer, "ipns", "k2k4r8n0flx3ra0y5dr8fmyvwbzy3eiztmtq6th694k5a3rznayp3e4o", ""},                                                          // already canonical
+	{zzwKindDNSLink, "ipns", "dnslink.long-name.example.com", "dnslink.long-name.example.com"},                                                     // FQDN on the path
+	{zzwKindDNSLink, "ipns", "dnslink-long--name-example-com", "dnslink.long-name.example.com"},                                                    // inlined FQDN on the path
+	{zzwKindDNSLink, "ipns", "en.wikipedia-on-ipfs.org", "en.wikipedia-on-ipfs.org"},                                                               //
+	{zzwKindTooLong, "ipfs", "bafkrgqe3ohjcjplc6n4f3fwunlj6upltggn7xqujbsvnvyw764srszz4u4rshq6ztos4chl4plgg4ffyyxnayrtdi5oc4xb2332g645433aeg", ""}, // sha2-512
+}
+
+// zzwSameRoot: does `got` (a root identifier taken from a rewritten path) name the same content as the sample?
+func zzwSameRoot(s zzwSample, got string) bool {
+	switch s.kind {
+	case zzwKindCID:
+		a, err1 := cid.Decode(s.id)
+		b, err2 := cid.Decode(got)
+		return err1 == nil && err2 == nil && a.Type() == b.Type() && bytes.Equal(a.Hash(), b.Hash())
+	case zzwKindPeer:
+		// the key's multihash; `got` must be a well-formed peer ID (base58 multihash or libp2p-key CID)
+		var want []byte
+		if a, err := peer.Decode(s.id); err == nil {
+			want = []byte(a)
+		} else if c, err := cid.Decode(s.id); err == nil {
+			want = c.Hash()
+		} else {
+			return false
+		}
+		b, err := peer.Decode(got)
+		return err == nil && bytes.Equal(want, []byte(b))
+	case zzwKindDNSLink:
+		return got == s.fqdn
+	}
+	return false
+}
+
+func zzwRequest(host, p, rawQuery string, https bool) *http.Request {
+	r := &http.Request{Method: http.MethodHead, Host: host, Header: http.Header{}, URL: &url.URL{Path: p, RawQuery: rawQuery}}
+	if https {
+		r.Header.Set("X-Forwarded-Proto", "https")
+	}
+	return r
+}
+
+// HarnessC32Redirect: a path request for every sample x remainder x query x {http, https} x
+// {InlineDNSLink off, on} against the subdomain gateway dweb.link: the redirect target is a subdomain URL whose
+// first label fits 63 bytes; requesting that URL hands the wrapped handler a content path with the same
+// namespace, the same root identity, the same remainder and the same query, without a further redirect.
+func HarnessC32Redirect() {
+	s := zzwPool[verifrt.NondetRange("sample", 0, len(zzwPool)-1)]
+	inline := verifrt.NondetRange("inline", 0, 1) == 1
+	https := verifrt.NondetRange("https", 0, 1) == 1
+	nr := verifrt.NondetRange("restLen", 0, verifrt.Param("R", 2))
+	rest := verifrt.NondetBytes("rest", nr)
+	for i := range rest {
+		verifrt.Assume(verifrt.OneOf(rest[i], "a/ %"))
+	}
+	if nr > 0 {
+		// "/ns/root//x": the empty first segment of the remainder is dropped by the redirect (URL.Path = "/x");
+		// the content path is the same after path cleaning, the literal remainder is not claimed here
+		verifrt.Assume(rest[0] != '/')
+	}
+	nq := verifrt.NondetRange("queryLen", 0, verifrt.Param("Q", 1))
+	query := verifrt.NondetBytes("query", nq)
+	for i := range query {
+		verifrt.Assume(verifrt.OneOf(query[i], "a=&"))
+	}
+	hasSlash := nr > 0 || verifrt.NondetRange("trailingSlash", 0, 1) == 1
+
+	backend := &zzwBackend{names: map[string]bool{"dnslink.long-name.example.com": true, "en.wikipedia-on-ipfs.org": true}}
+	c := Config{PublicGateways: map[string]*PublicGateway{
+		"dweb.link": {Paths: []string{"/ipfs", "/ipns"}, UseSubdomains: true, InlineDNSLink: inline},
+	}}
+	next := &zzwNext{}
+	h := NewHostnameHandler(c, backend, next)
+
+	// hop 1: path request on the gateway host
+	p := "/" + s.ns + "/" + s.id
+	remainder := ""
+	if hasSlash {
+		remainder = "/" + string(rest)
+	}
+	w1 := &zzwRW{h: http.Header{}}
+	h(w1, zzwRequest("dweb.link", p+remainder, string(query), https))
+	verifrt.Observe("code1", w1.code)
+	loc := headerGetExact(w1.h, "Location")
+	verifrt.Observe("location", loc)
+
+	if s.kind == zzwKindTooLong {
+		verifrt.Assert("C32.no-redirect-without-a-63-byte-label", w1.code != http.StatusMovedPermanently && next.calls == 0)
+		verifrt.Reach("end")
+		return
+	}
+	verifrt.Assert("C32.path-request-is-redirected-to-subdomain", w1.code == http.StatusMovedPermanently && next.calls == 0 && loc != "")
+	if w1.code != http.StatusMovedPermanently || loc == "" {
+		verifrt.Reach("end")
+		return
+	}
+	u, err := url.Parse(loc)
+	verifrt.Assert("C32.location-parses", err == nil)
+	if err != nil {
+		verifrt.Reach("end")
+		return
+	}
+	wantScheme := "http"
+	if https {
+		wantScheme = "https"
+	}
+	verifrt.Assert("C32.location-scheme", u.Scheme == wantScheme)
+	suffix := "." + s.ns + ".dweb.link"
+	verifrt.Assert("C32.location-host-is-root.ns.gateway", strings.HasSuffix(u.Host, suffix) && len(u.Host) > len(suffix))
+	if !strings.HasSuffix(u.Host, suffix) {
+		verifrt.Reach("end")
+		return
+	}
+	root := strings.TrimSuffix(u.Host, suffix)
+	labels := strings.Split(root, ".")
+	for _, l := range labels {
+		verifrt.Assert("C32.every-label-fits-63", len(l) >= 1 && len(l) <= 63)
+	}
+	if s.kind != zzwKindDNSLink || inline || https {
+		verifrt.Assert("C32.root-is-a-single-label", len(labels) == 1)
+	}
+	if s.kind == zzwKindDNSLink {
+		if len(labels) == 1 {
+			verifrt.Assert("C32.redirect-root-names-same-content", UninlineDNSLink(root) == s.fqdn)
+		} else {
+			verifrt.Assert("C32.redirect-root-names-same-content", root == s.fqdn)
+		}
+	} else {
+		verifrt.Assert("C32.redirect-root-names-same-content", zzwSameRoot(s, root))
+	}
+	verifrt.Assert("C32.redirect-preserves-query", u.RawQuery == string(query))
+
+	// hop 2: the subdomain request
+	w2 := &zzwRW{h: http.Header{}}
+	h(w2, zzwRequest(u.Host, u.Path, u.RawQuery, https))
+	verifrt.Observe("code2", w2.code)
+	verifrt.Observe("path2", next.path)
+	verifrt.Assert("C32.subdomain-request-reaches-handler", next.calls == 1 && w2.code == 200)
+	if next.calls != 1 {
+		verifrt.Reach("end")
+		return
+	}
+	verifrt.Assert("C32.subdomain-context-names-gateway", next.subdomGw == "dweb.link")
+	got := next.path
+	prefix := "/" + s.ns + "/"
+	verifrt.Assert("C32.rewritten-path-keeps-namespace", strings.HasPrefix(got, prefix))
+	if !strings.HasPrefix(got, prefix) {
+		verifrt.Reach("end")
+		return
+	}
+	gotRoot, gotRem, _ := strings.Cut(got[len(prefix):], "/")
+	verifrt.Assert("C32.rewritten-path-names-same-content", zzwSameRoot(s, gotRoot))
+	wantRem := string(rest) // "/" + rest, with Cut having consumed the slash
+	verifrt.Assert("C32.rewritten-path-keeps-remainder", gotRem == wantRem)
+	verifrt.Assert("C32.rewritten-request-keeps-query", next.rawQuery == string(query))
+	verifrt.Reach("end")
+}
+
+// zzwTail draws a short symbolic remainder ("/"+rest or "") and query.
+func zzwTail() (remainder, rest, query string) {
+	nr := verifrt.NondetRange("restLen", 0, verifrt.Param("R", 2))
+	rb := verifrt.NondetBytes("rest", nr)
+	for i := range rb {
+		verifrt.Assume(verifrt.OneOf(rb[i], "a/ %"))
+	}
+	if nr > 0 {
+		verifrt.Assume(rb[0] != '/')
+	}
+	nq := verifrt.NondetRange("queryLen", 0, verifrt.Param("Q", 1))
+	qb := verifrt.NondetBytes("query", nq)
+	for i := range qb {
+		verifrt.Assume(verifrt.OneOf(qb[i], "a=&"))
+	}
+	return "/" + string(rb), string(rb), string(qb)
+}
+
+// HarnessC32HostToPath: the other routes of NewHostnameHandler. Each case states which content path the wrapped
+// handler must see (or that nothing may be served) for a symbolic remainder and query.
+func HarnessC32HostToPath() {
+	remainder, rest, query := zzwTail()
+	backend := &zzwBackend{names: map[string]bool{"dnslink.long-name.example.com": true, "en.wikipedia-on-ipfs.org": true}}
+	c := Config{PublicGateways: map[string]*PublicGateway{
+		"dweb.link":                     {Paths: []string{"/ipfs", "/ipns"}, UseSubdomains: true},
+		"ipfs.io":                       {Paths: []string{"/ipfs", "/ipns"}, UseSubdomains: false},
+		"dnslink.long-name.example.com": {Paths: []string{"/ipfs"}, NoDNSLink: false},
+		"nodnslink.example.com":         {Paths: []string{"/ipfs"}, NoDNSLink: true},
+	}}
+	next := &zzwNext{}
+	h := NewHostnameHandler(c, backend, next)
+	w := &zzwRW{h: http.Header{}}
+	cidPath := "/ipfs/bafybeif7a7gdklt6hodwdrmwmxnhksctcuav6lfxlcyfz4khzl3qfmvcgu"
+
+	switch verifrt.NondetRange("case", 0, 7) {
+	case 0: // path gateway without subdomains: the request passes through untouched
+		h(w, zzwRequest("ipfs.io", cidPath+remainder, query, false))
+		verifrt.Assert("C32.path-gateway-passes-request-through", next.calls == 1 && w.code == 200 && next.path == cidPath+remainder && next.rawQuery == query)
+		verifrt.Assert("C32.path-gateway-no-dnslink-context", next.dnslink == "" && next.subdomGw == "")
+	case 1: // DNSLink host that is no configured gateway
+		h(w, zzwRequest("en.wikipedia-on-ipfs.org", remainder, query, false))
+		verifrt.Assert("C32.dnslink-host-maps-to-ipns-name", next.calls == 1 && next.path == "/ipns/en.wikipedia-on-ipfs.org"+remainder && next.rawQuery == query)
+		verifrt.Assert("C32.dnslink-context-names-host", next.dnslink == "en.wikipedia-on-ipfs.org")
+	case 2: // the same with a port in Host
+		h(w, zzwRequest("en.wikipedia-on-ipfs.org:8080", remainder, query, false))
+		verifrt.Assert("C32.dnslink-host-maps-to-ipns-name", next.calls == 1 && next.path == "/ipns/en.wikipedia-on-ipfs.org"+remainder && next.rawQuery == query)
+	case 3: // configured gateway host, path outside its Paths, DNSLink present
+		h(w, zzwRequest("dnslink.long-name.example.com", remainder, query, false))
+		verifrt.Assert("C32.dnslink-host-maps-to-ipns-name", next.calls == 1 && next.path == "/ipns/dnslink.long-name.example.com"+remainder && next.rawQuery == query)
+	case 4: // configured gateway host with NoDNSLink: nothing outside Paths exists
+		h(w, zzwRequest("nodnslink.example.com", remainder, query, false))
+		verifrt.Assert("C32.nodnslink-host-serves-nothing-outside-paths", next.calls == 0 && w.code == http.StatusNotFound)
+	case 5: // subdomain-style host on a gateway that does not use subdomains: not a gateway route; the
+		// host has no DNSLink record either, so the request reaches the handler unchanged
+		h(w, zzwRequest("bafybeif7a7gdklt6hodwdrmwmxnhksctcuav6lfxlcyfz4khzl3qfmvcgu.ipfs.ipfs.io", remainder, query, false))
+		verifrt.Assert("C32.subdomain-host-on-path-gateway-is-not-content", w.code == http.StatusNotFound && next.calls == 0)
+	case 6: // X-Forwarded-Host names the subdomain gateway
+		r := zzwRequest("backend.internal:8080", cidPath+remainder, query, false)
+		r.Header.Set("X-Forwarded-Host", "dweb.link")
+		h(w, r)
+		loc := headerGetExact(w.h, "Location")
+		verifrt.Observe("location", loc)
+		verifrt.Assert("C32.forwarded-host-path-request-is-redirected", w.code == http.StatusMovedPermanently && next.calls == 0)
+		u, err := url.Parse(loc)
+		if err == nil {
+			verifrt.Assert("C32.forwarded-host-redirect-target", u.Host == "bafybeif7a7gdklt6hodwdrmwmxnhksctcuav6lfxlcyfz4khzl3qfmvcgu.ipfs.dweb.link" && u.Path == "/"+rest && u.RawQuery == query)
+		} else {
+			verifrt.Assert("C32.location-parses", false)
+		}
+	case 7: // subdomain request whose root is not in canonical DNS form: either redirected to a canonical label
+		// or served as it is; in both cases the same content, remainder and query
+		var s zzwSample
+		switch verifrt.NondetRange("noncanon", 0, 2) {
+		case 0:
+			s = zzwPool[3] // CIDv1 base58btc
+		case 1:
+			s = zzwPool[6] // key as CIDv1 with dag-pb codec
+		case 2:
+			s = zzwPool[7] // ed25519 key as base32 CIDv1: 65 bytes, over the label limit
+		}
+		h(w, zzwRequest(s.id+"."+s.ns+".dweb.link", remainder, query, false))
+		loc := headerGetExact(w.h, "Location")
+		verifrt.Observe("location", loc)
+		verifrt.Assert("C32.subdomain-request-redirected-or-served", (w.code == http.StatusMovedPermanently && next.calls == 0) || (w.code == 200 && next.calls == 1))
+		if w.code == http.StatusMovedPermanently {
+			u, err := url.Parse(loc)
+			if err != nil {
+				verifrt.Assert("C32.location-parses", false)
+				break
+			}
+			suffix := "." + s.ns + ".dweb.link"
+			verifrt.Assert("C32.location-host-is-root.ns.gateway", strings.HasSuffix(u.Host, suffix))
+			root := strings.TrimSuffix(u.Host, suffix)
+			verifrt.Assert("C32.every-label-fits-63", len(root) >= 1 && len(root) <= 63 && !strings.Contains(root, "."))
+			verifrt.Assert("C32.redirect-root-names-same-content", zzwSameRoot(s, root))
+			verifrt.Assert("C32.redirect-keeps-remainder", u.Path == "/"+rest)
+			verifrt.Assert("C32.redirect-preserves-query", u.RawQuery == query)
+		} else if next.calls == 1 {
+			prefix := "/" + s.ns + "/"
+			verifrt.Assert("C32.rewritten-path-keeps-namespace", strings.HasPrefix(next.path, prefix))
+			if strings.HasPrefix(next.path, prefix) {
+				gotRoot, gotRem, _ := strings.Cut(next.path[len(prefix):], "/")
+				verifrt.Assert("C32.rewritten-path-names-same-content", zzwSameRoot(s, gotRoot))
+				verifrt.Assert("C32.rewritten-path-keeps-remainder", gotRem == rest)
+				verifrt.Assert("C32.rewritten-request-keeps-query", next.rawQuery == query)
+				verifrt.Assert("C32.served-label-fits-63", len(gotRoot) <= 63)
+			}
+		}
+	}
+	verifrt.Observe("code", w.code)
+	verifrt.Observe("nextPath", next.path)
 	verifrt.Reach("end")
 }
